@@ -109,6 +109,14 @@ def check_a(ck, repo):
         kit = src_of(kloop.iter) if kloop is not None else None
         val = src_of(c.args[2])
         dbg = [s_ for s_ in own_nodes(alt.node) if isinstance(s_, ast.Assign) and isinstance(s_.targets[0], ast.Attribute) and s_.targets[0].attr == "_debug"]
+        # the record held in a local first (debug = Info(model); model._debug = debug): the local is the record
+        if len(dbg) == 1 and isinstance(dbg[0].value, ast.Name):
+            loc_ = dbg[0].value.id
+            ld_ = [s_ for s_ in own_nodes(alt.node) if isinstance(s_, ast.Assign) and len(s_.targets) == 1 and isinstance(s_.targets[0], ast.Name) and s_.targets[0].id == loc_]
+            if len(ld_) == 1:
+                if kit is not None:
+                    kit = kit.replace(f"{loc_}.", f"{Ms}._debug.") if kit.startswith(f"{loc_}.") else (f"list({Ms}._debug.methods)" if kit == f"list({loc_}.methods)" else kit)
+                dbg = [ast.copy_location(ast.Assign(targets=dbg[0].targets, value=ld_[0].value), dbg[0])]
         okd = len(dbg) == 1 and src_of(dbg[0].targets[0].value) == Ms and src_of(dbg[0].value) == f"BaseEstimatorDebugInformation({Ms})" and dbg[0].lineno < c.lineno
         oki = enum and kit in (f"{Ms}._debug.methods", f"{Ms}._debug.methods.keys()", f"list({Ms}._debug.methods)") and isinstance(K, ast.Name) and val == f"MethodType({tabvar}[{K.id}], {Ms})" and okd
     ck.verdict(oki, "C16.a", alt, "install new_methods[k] for k in model._debug.methods on every enumerated model", "every enumerated model gets the wrappers of the methods it has", "wrappers are not installed as setattr(model, k, MethodType(new_methods[k], model)) for k in model._debug.methods")
